@@ -11,8 +11,11 @@ THEOREMS = [(M, "NQ.C08." + n) for n in [
     "expansions_have_no_branch", "index_is_expansion_start", "index_monotone", "output_structure",
     "branch_lands_on_expansion", "nongate_order", "scratch_ok", "transpile_simulates_partial",
     "transpile_simulates_final_partial", "pad_is_set", "set_writes_gen",
+    "templates_eq_nvdecomp", "expandSound_of_C07", "transpile_simulates_C07_partial",
+    "mov_unknown_emits_ec", "f10_nonQ_register_asserts", "sets_only_scratch_gen", "seeded_scratch_registers",
+    "seeded_cache_violates_scratch_ok",
     "f10_counterexample_asserts", "f10_counterexample_stale", "f26_fixed_witness"]]
-TRANSLATORS = ["nv_expand"]
+TRANSLATORS = ["nv_expand", "nv_decomp"]
 LEVEL_TEXT = (
     "Lean theorems about a literal model of NVSubroutineTranspiler.transpile (all vanilla subroutines, any "
     "length, both debug settings, both hardware settings): index_changes[i] is the serialised start of the "
@@ -20,11 +23,15 @@ LEVEL_TEXT = (
     "(+ padding); every jmp/b** is retargeted to the expansion start of its original target, target = len "
     "included (padding appended exactly then); non-gate instructions appear once, in order, patched only in "
     "their target; the borrowed-electron register of a carbon-carbon gate is not read before being re-set "
-    "(QStatic programs); step-for-step simulation of the vanilla program by the serialised NV program for "
+    "(scratch_ok, about the registers the emitted chunk writes); step-for-step simulation of the vanilla program by the serialised NV program for "
     "QStatic programs given the C07 gate hypothesis (transpile_simulates_partial, and "
-    "transpile_simulates_final_partial for terminating runs: same memory and non-Q registers modulo the padding "
-    "register C15 when the padding was appended; the unrestricted statement is false: F10, proved "
-    "counter-examples). Tie: expansion templates, class facts and padding regenerated "
+    "transpile_simulates_final_partial for terminating runs: same memory and same registers - all non-Q registers "
+    "and every Q register that get_unused_register hands out nowhere in S - modulo the padding register C15 when "
+    "the padding was appended; the unrestricted statement is false: F10, proved "
+    "counter-examples). The gate hypothesis is DISCHARGED for the generated table and a concrete semantics "
+    "(expandSound_of_C07, transpile_simulates_C07_partial): gates apply the operator of their mnemonic; the proof "
+    "uses C07's single_gates_eq / cnot_placements_eq / cphase_placements_eq and the kernel-decided tie "
+    "templates_eq_nvdecomp (Gen/NvExpand templates read over roles = Gen/NvDecomp sequences). Tie: expansion templates, class facts and padding regenerated "
     "from the live code; syntactic correspondence (equal instruction lists / same exception class) between "
     "the compiled model and the real pass on structured programs, instruction soup and real-SDK output; "
     "model-free state-vector oracle on the real Executor.")
@@ -41,9 +48,11 @@ TRUSTED = [
     "translate/nv_expand.py: expansion templates obtained by running the live _map_*/_move_* methods with "
     "sentinel registers and probe angles; class facts from isinstance/writes_to on live instances",
     "harness/transpile.py: correspondence stream and numpy state-vector executor (subclass of the real Executor)",
-    "hypothesis ExpandSound (each instantiated expansion acts as its gate, leaving only the scratch register "
-    "changed) is C07's obligation; hypotheses of Sem (an instruction reads only registers it names and writes "
-    "only writes_to()) are C04's",
+    "QLawful (standard mathematics, not re-proved): an exact operator identity on k roles holds on the whole "
+    "register under any injective assignment of qubits to roles (scalar = global phase); a rotation depends only "
+    "on its angle. gnameOf: class name -> mnemonic (C07's matrices stream ties mnemonics to published matrices)",
+    "SemLocal for the classical instructions (an instruction reads only registers it names and writes only "
+    "writes_to()) is C04's; mov has no semantics in the concrete model MQ",
 ]
 ASSUMPTIONS = [
     "instructions are (class, operand values); lineno is ignored",
@@ -79,17 +88,6 @@ def run(ctx):
                 "expanded and a branch/jump, or raises in the pass; distinct by program hash + settings")
     rng = ctx.rng
     T = ctx.thorough
-    notes = H.probe_gate_findings()
-    exclude = set()
-    movs = True
-    if notes["F8"]:
-        # TEMPORARY: F8 (S/T expand to their adjoints) is C07's open defect on this tree
-        exclude |= {"vanilla.GateSInstruction", "vanilla.GateTInstruction"}
-        print("note: C08 oracle excludes S/T gates (F8 present in this tree; owned by C07)")
-    if notes["F9"]:
-        movs = False
-        print("note: C08 oracle excludes mov (F9: nv crot_y publishes an X-axis matrix; owned by C07)")
-
     def model(js, debug, hw):
         return {"op": "transpile.run", "debug": debug, "hw": hw, "is": js}
 
@@ -160,6 +158,9 @@ def run(ctx):
             js2 = H.replace_loads_by_sets(js, gen.load_sites)
             if H.oracle_compare([js2], nq, script, st, debug=debug) is None:
                 kf = "F10"
+        elif H.nonq_two_qubit_gate(js):
+            if H.oracle_compare([H.nonq_to_q(js)], nq, script, st, debug=debug) is None:
+                kf = "F10"
         res.failures.append({"what": r["what"], "kf": kf, "detail": {k: v for k, v in r.items() if k != "what"},
                              "input": {"program": [js], "text": H.show(js), "nq": nq, "script": script,
                                        "debug": debug, "state": [[z.real, z.imag] for z in st]}})
@@ -177,6 +178,27 @@ def run(ctx):
     class _G:  # load site bookkeeping for the two hand-written witnesses
         def __init__(self, sites):
             self.load_sites = sites
+    w_nonq = [H.ins("core.SetInstruction", H.reg(Rb, 0), H.imm(0)), H.ins("core.SetInstruction", H.reg(Rb, 1), H.imm(1)),
+              H.ins("vanilla.CnotInstruction", H.reg(Rb, 0), H.reg(Rb, 1))]
+    oracle("corpus-F10-nonQ", w_nonq, 2)
+    # mov with run-time register ids, both directions (the SDK emits the first): must agree
+    for a, b in ((0, 1), (1, 0), (0, 2)):
+        w_mov = [H.ins("core.SetInstruction", H.reg(Rb, 3), H.imm(b)), H.ins("core.InitInstruction", H.reg(Rb, 3)),
+                 H.ins("core.SetInstruction", H.reg(Rb, 4), H.imm(a)),
+                 H.ins("vanilla.MovInstruction", H.reg(Rb, 4), H.reg(Rb, 3)),
+                 H.ins("core.InitInstruction", H.reg(Rb, 4))]
+        oracle("corpus-mov-runtime-ids", w_mov, 3)
+        syntactic("corpus", w_mov, False, False)
+    syntactic("corpus", w_nonq, False, False)
+    # seeded change C08_0: a cached scratch register re-used after the program started using it
+    w_scr = [H.ins("core.SetInstruction", H.reg(Qb, 0), H.imm(1)), H.ins("core.SetInstruction", H.reg(Qb, 1), H.imm(2)),
+             H.ins("vanilla.CnotInstruction", H.reg(Qb, 0), H.reg(Qb, 1)),
+             H.ins("core.SetInstruction", H.reg(Qb, 2), H.imm(3)), H.ins("vanilla.GateHInstruction", H.reg(Qb, 2)),
+             H.ins("vanilla.CphaseInstruction", H.reg(Qb, 1), H.reg(Qb, 0)),
+             H.ins("vanilla.GateXInstruction", H.reg(Qb, 2))]
+    for dbg in (False, True):
+        oracle("corpus-seeded-scratch", w_scr, 4, debug=dbg)
+        syntactic("corpus", w_scr, dbg, False)
     oracle("corpus-F10-assert", w_assert, 3, _G([(5, 0, 0)]))
     oracle("corpus-F10-stale", w_stale, 3, _G([(6, 0, 0)]))
     # F26 (fixed): branch across a carbon-carbon gate with debug markers
@@ -197,13 +219,15 @@ def run(ctx):
     for k in range(n_struct):
         nq = rng.choice([1, 2, 2, 3, 3, 4, 5])
         loads = rng.random() < 0.25
-        g = H.ProgGen(rng, nq, loads=loads, exclude=exclude, sdk_regs=rng.random() < 0.4, movs=movs)
+        g = H.ProgGen(rng, nq, loads=loads, sdk_regs=rng.random() < 0.4)
         js = g.program(rng.randrange(1, 7))
         for f in g.features:
             res.count("feature:" + f)
         dbg = rng.random() < 0.5
-        syntactic("struct-load" if loads else "struct", js, dbg, rng.random() < 0.3)
-        oracle("struct-load" if loads else "struct", js, nq, g, debug=dbg)
+        # programs with a run-time-id mov are outside QStatic by definition (own tag, oracle still runs)
+        tag = "struct-load" if loads else ("struct-movR" if "mov-runtime-ids" in g.features else "struct")
+        syntactic(tag, js, dbg, rng.random() < 0.3)
+        oracle(tag, js, nq, g, debug=dbg)
     flush_syntactic()
 
     # ---- instruction soup (malformed stream included): syntactic only
@@ -220,7 +244,7 @@ def run(ctx):
     for k in range(n_sdk):
         nq = 5  # the SDK's default NV hardware config: ids 0..4 (it relocates the electron on demand)
         try:
-            log, feats, rejected = H.sdk_program(rng, rng.choice([2, 3, 3]), no_st=notes["F8"])
+            log, feats, rejected = H.sdk_program(rng, rng.choice([2, 3, 3]))
         except Exception as e:  # harness trouble must not look like a violation
             res.count("sdk-harness-exception:" + type(e).__name__)
             continue
@@ -238,9 +262,6 @@ def run(ctx):
                                      "input": {"program": [before], "text": H.show(before)}})
         script = [rng.randrange(2) for _ in range(6)]
         st = H.random_state(rng, nq)
-        if notes["F9"] and any(j["c"] == "vanilla.MovInstruction" for sb in subs for j in sb):
-            res.count("oracle-skip:sdk-mov-under-F9")  # TEMPORARY, see the note printed above
-            continue
         r = H.oracle_compare(subs, nq, script, st)
         res.count("oracle:sdk")
         if r == "skip":
